@@ -42,13 +42,14 @@ VARIABLES l, mode, scn, case, nviol,
           minfl,    \* monitor: API calls in flight
           mtrig,    \* [env -> hook tasks triggered in the teardown in progress]
           mgone,    \* monitor: environments a destroy was requested for
+          mclean,   \* monitor: "run" while a Cleanup call is the only call in flight, "done" once it returned OK
           mlive,    \* monitor: [env -> detectors] of the environments created successfully and not yet destroyed
           mhold,    \* monitor: [env -> live environments (with detectors) when its create was requested]
           msnap,    \* monitor: envs part of the previous quiescent Snapshot
           msame     \* monitor: a create was refused because of a detector: the next snapshot must equal msnap
 
-tvars2 == <<l, mode, scn, case, nviol, mown, mlast, mfor, mrole, mkill, mlost, mrost, mret, mkeep, minfl, mtrig, mgone, mlive, mhold, msnap, msame>>
-mvars == <<mown, mlast, mfor, mrole, mkill, mlost, mrost, mret, mkeep, minfl, mtrig, mgone, mlive, mhold, msnap, msame>>
+tvars2 == <<l, mode, scn, case, nviol, mown, mlast, mfor, mrole, mkill, mlost, mrost, mret, mkeep, minfl, mtrig, mgone, mlive, mhold, msnap, msame, mclean>>
+mvars == <<mown, mlast, mfor, mrole, mkill, mlost, mrost, mret, mkeep, minfl, mtrig, mgone, mlive, mhold, msnap, msame, mclean>>
 
 Line == Trace[l]
 Soft(name, cond, detail) == IF cond THEN 0 ELSE IF PrintT(<<"VIOL", name, scn, l, detail>>) THEN 1 ELSE 1
@@ -274,6 +275,12 @@ MonSnapshot ==
                  {<<e, t>> \in SnapEnvs \X alltasks : t \in SeqSet(SnapEnv(e).tasks) /\ t \in SnapTasks /\ SnapTask(t).owner # e})
           + SumPost({e \in DOMAIN mret : mret[e] # "none"})
           + (IF msame /\ msnap.ok THEN Soft("HolderUnchanged", Line.envs = msnap.envs, <<msnap.envs, Line.envs>>) ELSE 0)
+          \* a Cleanup() that ran alone and returned OK has asked every task nobody owns to terminate
+          + (IF mclean = "done"
+               THEN Soft("CleanupKillsUnowned",
+                         \A t \in SnapTasks : (SnapTask(t).owner = "" /\ AliveAtMaster(t) /\ t \notin mlost) => KillsAtMaster(t) > 0,
+                         {t \in SnapTasks : SnapTask(t).owner = "" /\ AliveAtMaster(t) /\ t \notin mlost /\ KillsAtMaster(t) = 0})
+               ELSE 0)
        ELSE 0)
 
 MonStep ==
@@ -343,6 +350,9 @@ MonUpdate ==
               ELSE IF a = "Snapshot" THEN [ok |-> FALSE, envs |-> <<>>] ELSE msnap
   /\ msame' = IF a = "ApiReply" /\ Line.call = "create" /\ Line.inuse /\ minfl = 1 THEN TRUE
               ELSE IF a \in {"Snapshot", "Api"} THEN FALSE ELSE msame
+  /\ mclean' = IF a = "Api" THEN (IF Line.call = "cleanup" /\ minfl = 0 THEN "run" ELSE "no")
+               ELSE IF a = "ApiReply" THEN (IF Line.call = "cleanup" /\ mclean = "run" /\ Line.code = "OK" THEN "done" ELSE "no")
+               ELSE IF a = "Snapshot" THEN "no" ELSE mclean
 
 (* ============================== the run ================================== *)
 ModelInit ==
@@ -375,7 +385,7 @@ TReset ==
   \* (strict = FALSE: a hand-scheduled scenario outside the schedules LifecycleGen produces: monitor only)
   /\ scn' = Line.scn /\ case' = Line.model /\ mode' = (IF Line.model.strict THEN "ok" ELSE "lost") /\ nviol' = nviol /\ l' = l + 1
   /\ mown' = EmptyF /\ mlast' = EmptyF /\ mfor' = EmptyF /\ mrole' = EmptyF /\ mkill' = {} /\ mlost' = {} /\ mrost' = {} /\ mret' = EmptyF /\ mkeep' = {}
-  /\ minfl' = 0 /\ mtrig' = EmptyF /\ mgone' = {} /\ mlive' = EmptyF /\ mhold' = EmptyF /\ msnap' = [ok |-> FALSE, envs |-> <<>>] /\ msame' = FALSE
+  /\ minfl' = 0 /\ mtrig' = EmptyF /\ mgone' = {} /\ mlive' = EmptyF /\ mhold' = EmptyF /\ msnap' = [ok |-> FALSE, envs |-> <<>>] /\ msame' = FALSE /\ mclean' = "no"
 
 \* a silent step of the code: the line is not consumed
 \* The simulated agents report TASK_RUNNING once the task is in the roster, or after 3 s: on a loaded machine a
@@ -431,7 +441,7 @@ TraceInit ==
   /\ Init
   /\ l = 1 /\ mode = "lost" /\ scn = -1 /\ case = NoCase /\ nviol = 0
   /\ mown = EmptyF /\ mlast = EmptyF /\ mfor = EmptyF /\ mrole = EmptyF /\ mkill = {} /\ mlost = {} /\ mrost = {} /\ mret = EmptyF /\ mkeep = {}
-  /\ minfl = 0 /\ mtrig = EmptyF /\ mgone = {} /\ mlive = EmptyF /\ mhold = EmptyF /\ msnap = [ok |-> FALSE, envs |-> <<>>] /\ msame = FALSE
+  /\ minfl = 0 /\ mtrig = EmptyF /\ mgone = {} /\ mlive = EmptyF /\ mhold = EmptyF /\ msnap = [ok |-> FALSE, envs |-> <<>>] /\ msame = FALSE /\ mclean = "no"
 
 TraceNext ==
   /\ l <= Len(Trace)
